@@ -379,7 +379,7 @@ def enum_pushlens(tier):
             yield {"n": n}
 
 
-def targets(tier):
+def _targets(tier):
     big = tier == "thorough"
     return [
         Target("asm-disasm", check_asm, strategy=lambda tier: asm_cases(big), budget={"quick": 4000, "thorough": 80000},
@@ -391,3 +391,14 @@ def targets(tier):
         Target("builders", check_builder, enumerate_=enum_builders,
                required=["nt:p2sh-sig-redeem>75", "nt:nulldata>75", "nt:multisig-16of16", "nt:witness-version>=1"], exhaustive=True),
     ]
+
+
+def targets(tier):
+    ts = _targets(tier)
+    if tier == "thorough":
+        # coverage-guided add-on (atheris/libFuzzer through Hypothesis' fuzz_one_input); skipped with a class label if atheris is missing
+        from vf import fuzz
+
+        for name in ['asm-disasm', 'witness']:
+            ts.append(fuzz.campaign_target(PROPERTY, name, campaigns=16, runs=10000))
+    return ts
